@@ -191,23 +191,21 @@ func (r *Raft) onAppendEntriesRequest(req *appendReq, c *conn) (rpcResult, error
 	}
 
 	// valid req: let us consume entries
-	index, term, syncLog := req.prevLogIndex, req.prevLogTerm, false
-	if req.numEntries > 0 {
-		defer func() {
-			if syncLog {
-				verifPoint("append.beforeFlush", r)
-				if trace {
-					println(r, "log.Commit", r.lastLogIndex)
-				}
-				r.storage.commitLog(r.lastLogIndex)
-				verifPoint("append.flushed", r)
-				if r.canCommit(req, index, term) {
-					r.setCommitIndex(index)
-					r.applyCommitted(nil)
-				}
-			}
-		}()
-	}
+	index, term := req.prevLogIndex, req.prevLogTerm
+	defer func() {
+		// everything we acknowledge must be durable: this includes entries
+		// already present in log but not yet flushed (former leader's tail)
+		verifPoint("append.beforeFlush", r)
+		if trace {
+			println(r, "log.Commit", r.lastLogIndex)
+		}
+		r.storage.commitLog(r.lastLogIndex)
+		verifPoint("append.flushed", r)
+		if r.canCommit(req, index, term) {
+			r.setCommitIndex(index)
+			r.applyCommitted(nil)
+		}
+	}()
 	for req.numEntries > 0 {
 		req.numEntries--
 		if !isEntryBuffered(c.bufr) {
@@ -247,7 +245,6 @@ func (r *Raft) onAppendEntriesRequest(req *appendReq, c *conn) (rpcResult, error
 			println(r, "log.append", ne.typ, ne.index)
 		}
 		r.storage.appendEntry(ne)
-		syncLog = true
 		if ne.typ == entryConfig {
 			var newConfig Config
 			if err := newConfig.decode(ne); err != nil {
